@@ -777,6 +777,100 @@ def drv_decode(ctx: Ctx, sub: SubCheck):
     ctx.tally.extra["decoders"] = len(names)
 
 
+def case_from_fuzz_bytes(data: bytes):
+    """Atheris input -> decode case (None: too short to mean anything).  Byte 0 selects the decoder."""
+    if len(data) < 2:
+        return None
+    names = list(decoders())
+    d = decoders()[names[data[0] % len(names)]]
+    body = bitarray_from_bytes(data[1:])
+    if d.n is None:  # UDP/IPv4: variable length, at least 40 bits (whole octets for from_bytes)
+        if len(body) < 40:
+            return None
+    else:
+        n = d.n
+        body = body[:n] if len(body) >= n else body + bitarray("0" * (n - len(body)))
+    return {"dec": d.name, "bits": body.to01()}
+
+
+def drv_atheris(ctx: Ctx, sub: SubCheck):
+    """coverage-guided campaign in subprocesses (thorough tier); corpus entries and findings come back as inputs and are
+    judged in-process by oracle_decode (same oracle, same replay format as the 'decode' sub-check)"""
+    import re
+    import subprocess
+    import sys
+    import tempfile
+
+    from vp.core import VERIF_DIR
+
+    env = dict(os.environ)
+    try:
+        subprocess.run([sys.executable, "-c", "import atheris"], env=env, check=True, capture_output=True, timeout=120)
+    except Exception:
+        ctx.tally.notes.append("atheris not importable: coverage-guided campaign skipped (Hypothesis sub-checks only)")
+        return
+    runs = int(os.environ.get("VP_ATHERIS_RUNS", "120000"))
+    max_time = int(os.environ.get("VP_ATHERIS_TIME", "75"))
+    n_proc = 4
+    names = list(decoders())
+    with tempfile.TemporaryDirectory(prefix="vp-c03-atheris-") as tmp:
+        procs = []
+        for k in range(n_proc):
+            corpus = os.path.join(tmp, f"corpus{k}")
+            os.makedirs(corpus)
+            rng = ctx.rng("atheris-corpus", k)
+            # seed corpus: per decoder one all-zero and one random string (deterministic)
+            for i, name in enumerate(names):
+                nbytes = ((decoders()[name].n or 80) + 7) // 8
+                for j, body in enumerate((bytes(nbytes), bytes(rng.getrandbits(8) for _ in range(nbytes)))):
+                    with open(os.path.join(corpus, f"seed{i:02d}_{j}"), "wb") as fh:
+                        fh.write(bytes([i]) + body)
+            findings = os.path.join(tmp, f"findings{k}.txt")
+            cmd = [sys.executable, os.path.join(VERIF_DIR, "vp", "c03_atheris.py"), f"-runs={runs}", f"-max_total_time={max_time}", "-timeout=0",
+                   f"-seed={ctx.seed * 100 + k + 1}", "-max_len=40", f"-artifact_prefix={tmp}/art{k}-", corpus]
+            procs.append((subprocess.Popen(cmd, env=dict(env, VP_ATHERIS_FINDINGS=findings), stdout=subprocess.DEVNULL, stderr=subprocess.PIPE, text=True), findings, corpus))
+        total_execs, corp, cov = 0, 0, 0
+        inputs = []
+        for p, findings, corpus in procs:
+            try:
+                _, err = p.communicate(timeout=max_time + 300)
+            except subprocess.TimeoutExpired:
+                p.kill()
+                _, err = p.communicate()
+                ctx.tally.notes.append("atheris worker exceeded its wall budget and was stopped")
+            m = re.findall(r"Done (\d+) runs", err or "")
+            total_execs += int(m[-1]) if m else 0
+            m = re.findall(r"cov: (\d+) ft: (\d+) corp: (\d+)", err or "")
+            if m:
+                cov = max(cov, int(m[-1][0]))
+                corp += int(m[-1][2])
+            if os.path.exists(findings):
+                with open(findings) as fh:
+                    inputs.extend(line.split()[0] for line in fh if line.strip())
+            for fn in sorted(os.listdir(corpus)):
+                with open(os.path.join(corpus, fn), "rb") as fh:
+                    inputs.append(fh.read().hex())
+            if p.returncode not in (0, None) and not os.path.exists(findings):
+                ctx.tally.notes.append(f"atheris worker exit status {p.returncode}: {(err or '')[-300:]}")
+                if os.environ.get("VP_ATHERIS_KEEP_STDERR"):
+                    with open(os.environ["VP_ATHERIS_KEEP_STDERR"], "a") as fh:
+                        fh.write(err or "")
+        seen = set()
+        for h in inputs:
+            case = case_from_fuzz_bytes(bytes.fromhex(h))
+            if case is None or (case["dec"], case["bits"]) in seen:
+                continue
+            seen.add((case["dec"], case["bits"]))
+            _LAST["outcome"] = "failing"
+            ctx.run_case(sub.name, oracle_decode, case)
+            out = _LAST["outcome"]
+            ctx.tally.case(sub.name, key=case, nontrivial=out.startswith("accepted"), cls=f"{case['dec']}:{out}")
+        ctx.tally.extra["atheris"] = {"execs": total_execs, "corpus_inputs_rejudged": len(seen), "corpus_size": corp, "cov_edges_max": cov, "processes": n_proc}
+        # fuzzer executions ran the same oracle inside the harness: counted as evaluations of this sub-check
+        ctx.tally.evaluations += total_execs
+        ctx.tally.sub_evals[sub.name] += total_execs
+
+
 # ======================================================================================================================
 # (c) element enumerations, exhaustive
 
@@ -898,6 +992,7 @@ def drv_sync(ctx: Ctx, sub: SubCheck):
 SUBCHECKS = [
     SubCheck("build", oracle_build, drv_build, "(a) build -> as_bits (fixed length) -> from_bits: every wire field equals the input, bits equal"),
     SubCheck("decode", oracle_decode, drv_decode, "(b) arbitrary right-length strings: documented rejection or decode-encode fixed point"),
+    SubCheck("decode_atheris", oracle_decode, drv_atheris, "(b) coverage-guided (Atheris) campaign on the same decoders and oracle", tiers=("thorough",)),
     SubCheck("elements", oracle_element, drv_elements, "(c) all 2^w values of every w<=8-bit element: defined -> itself, undefined -> reserved member or error"),
     SubCheck("sync", oracle_sync, drv_sync, "SYNC constants and random 48-bit values"),
 ]
